@@ -38,10 +38,10 @@ func checkC14(e *Env) {
 	out := gate.Outcome{Kind: gate.ErrNil, Idx: 1}
 	nonEmpty := gate.Assumption{ProvPat: "len(param:buf)", Value: "0", NotEqual: true}
 	empty := gate.Assumption{ProvPat: "len(param:buf)", Value: "0"}
-	sizeW := gate.CallOK("L.record-size", "binary.Write", "param:w", "global:binary.BigEndian", "conv(param:recordSize)")
+	sizeW := beWrite("L.record-size", "param:w", 8, "conv(param:recordSize)", true)
 	proofW := step{"proof", gate.CallInstr("", "invoke:io.Writer.Write", "param:w", "make([][]byte,"+tNR+")[rangeidx]")}
 	recW := step{"record", gate.CallInstr("", "invoke:io.Writer.Write", "param:w", "slice(param:buf,(rangeidx * param:recordSize),phi(((rangeidx + const:1) * param:recordSize)|len(param:buf)))")}
-	sizeS := step{"record-size", gate.CallInstr("", "binary.Write", "param:w", "global:binary.BigEndian", "conv(param:recordSize)")}
+	sizeS := step{"record-size", beWrite("", "param:w", 8, "conv(param:recordSize)", false)}
 	for _, c := range []gcfg{miceCfg("mi-sha256-03", nonEmpty), miceCfg("mi-sha256-draft2", nonEmpty), miceCfg("mi-sha256-draft2", empty)} {
 		e.requireGates("GATE", enc, out, c, sizeW)
 		e.sequenceOrder("ORDER", enc, c, "stream", []step{sizeS, recW})
